@@ -375,6 +375,76 @@ def rule_dispatch(ctx) -> RuleResult:
             elif s is None:
                 via = f"numpy_groupies.aggregate(func={k!r})"
             res.inst(f"{k} @ {eng} -> {via}", f"{k}@{eng}")
+    # the dispatcher itself never renames the requested kernel to one of another NaN discipline (or another operator family).
+    # generic_aggregate may rewrite `func` before looking it up (nanfirst -> first for string data, which has no NaN); every such rewrite
+    # is checked: for each name the guard admits, the new name must have the same discipline, unless the guard restricts the data to dtype
+    # kinds without a missing value.
+    ga = prog.funcs.get("aggregations.generic_aggregate")
+    if ga is None:
+        raise AnalysisError("aggregations.generic_aggregate is gone (anchor)")
+    from ..astutil import guard_facts, parents_map as _pm
+    pmap = _pm(ga.node)
+    fparam = "func" if "func" in ga.params else None
+    n_rew = 0
+    for a in walk_own(ga.node):
+        if not (fparam and isinstance(a, ast.Assign) and any(isinstance(t, ast.Name) and t.id == fparam for t in a.targets)):
+            continue
+        n_rew += 1
+        facts = guard_facts(a, pmap)
+        admitted = None
+        kinds_no_missing = False
+        for at, pol in facts:
+            if not pol:
+                continue
+            try:
+                e = ast.parse(at, mode="eval").body
+            except SyntaxError:
+                continue
+            if isinstance(e, ast.Compare) and len(e.ops) == 1 and norm(e.left) == fparam:
+                r = e.comparators[0]
+                if isinstance(e.ops[0], ast.In) and isinstance(r, (ast.List, ast.Tuple, ast.Set)):
+                    admitted = [x.value for x in r.elts if isinstance(x, ast.Constant)]
+                elif isinstance(e.ops[0], ast.Eq) and isinstance(r, ast.Constant):
+                    admitted = [r.value]
+            if ".dtype.kind in " in at:
+                lit = at.split(" in ", 1)[1].strip().strip("'\"")
+                if lit and set(lit) <= set("iubUSV"):
+                    kinds_no_missing = True
+        # new names: constants, conditional expressions of constants, or a slice of the old name (func[3:] drops the nan prefix)
+        news = []
+
+        def leaves(x):
+            if isinstance(x, ast.IfExp):
+                leaves(x.body)
+                leaves(x.orelse)
+            elif isinstance(x, ast.Constant) and isinstance(x.value, str):
+                news.append(("const", x.value))
+            elif isinstance(x, ast.Subscript) and norm(x.value) == fparam and norm(x.slice) == "3:":
+                news.append(("strip-nan", None))
+            else:
+                news.append(("other", norm(x)))
+        leaves(a.value)
+        for kind, val in news:
+            if kind == "other":
+                res.notes.append(f"UNDECIDED generic_aggregate: '{norm(a)[:60]}' rewrites the kernel name in a way this rule cannot read")
+                res.inst(f"generic_aggregate: {norm(a)[:50]} [unreadable rewrite]", f"rewrite|{a.lineno}")
+                continue
+            olds = admitted if admitted is not None else ["<any>"]
+            bad = []
+            for o in olds:
+                o_nan = isinstance(o, str) and o.startswith("nan")
+                n_nan = (False if kind == "strip-nan" else val.startswith("nan"))
+                if o == "<any>" or o_nan != n_nan:
+                    bad.append(o)
+            ok = not bad or kinds_no_missing
+            res.inst(f"generic_aggregate: rewrite {olds} -> {val if kind == 'const' else 'name without the nan prefix'}: discipline preserved"
+                     f"{' (data kinds without a missing value)' if kinds_no_missing and bad else ''}: {ok}", f"rewrite|{a.lineno}|{val}")
+            if not ok:
+                res.report(f"aggregations.generic_aggregate|rename-changes-discipline|{val or 'strip'}", ga.where(a), ga.qualname,
+                           f"'{norm(a)[:70]}' renames the requested kernel {bad} to {val if kind == 'const' else 'its name without nan'}: one is NaN-propagating, "
+                           "the other NaN-skipping, and the guard does not restrict the data to dtype kinds without a missing value -- a group containing NaN "
+                           "gets the extreme of its valid members where NumPy's (non-nan) reduction returns NaN")
+    res.inst(f"generic_aggregate: {n_rew} rewrite(s) of the kernel name examined", "rewrites")
     return res
 
 
